@@ -281,6 +281,34 @@ class Ctx:
             raise MachineryError(f"TLC failed on {name}: {(res.error or res.out[-2000:])}")
         return res
 
+    def tlaps(self, module: str, timeout: int = 600):
+        """Run tlapm on /verif/spec/<module>.tla (supplementary, unbounded proofs).  Never fails the check: returns
+        and records (obligations proved, obligations) or None when tlapm is unavailable / did not finish."""
+        d = Path(tempfile.mkdtemp(prefix=f"tlaps_{module}_", dir=self.tmp))
+        shutil.copy(SPEC / f"{module}.tla", d / f"{module}.tla")
+        t = time.time()
+        try:
+            p = subprocess.run(["tlapm", "--cleanfp", f"{module}.tla"], cwd=d, capture_output=True, text=True,
+                               timeout=timeout)
+            out = p.stdout + p.stderr
+        except Exception as e:  # noqa: BLE001
+            self.notes[f"tlaps_{module}"] = f"not run: {type(e).__name__}"
+            self.log(f"TLAPS {module}: not run ({type(e).__name__})")
+            return None
+        m = re.search(r"All (\d+) obligations? proved", out)
+        f = re.search(r"(\d+)/(\d+) obligations? failed", out)
+        if m:
+            res = (int(m.group(1)), int(m.group(1)))
+        elif f:
+            res = (int(f.group(2)) - int(f.group(1)), int(f.group(2)))
+        else:
+            self.notes[f"tlaps_{module}"] = "no verdict parsed"
+            self.log(f"TLAPS {module}: no verdict parsed")
+            return None
+        self.notes[f"tlaps_{module}"] = {"obligations": res[1], "proved": res[0], "wall_s": round(time.time() - t, 1)}
+        self.log(f"TLAPS {module}: {res[0]} of {res[1]} obligations proved, {time.time() - t:.1f}s (supplementary)")
+        return res
+
     # ------------------------------------------------------------ violations
     def replay_path(self, tag: str) -> Path:
         d = EVID / "replays" / self.pid
